@@ -14,6 +14,11 @@ Lines (tab separated):
   grd.unit  unit scn needs off mode base changed panicked                  a begin-block unit that reads prices; changed = its records differ
   grd.wasm  variant chain senderKind sender base outcome diffEmpty        outcome ∈ {ok,err:guard,err:inner,panic}
   grd.sweep sweep app brk esm base started appDiffEmpty                    started = number of new liquidations / auctions
+  grd.entry kind name scn caller authorised base expect outcome diffEmpty changed   an entry point of the inventory driven by `caller`;
+            kind ∈ {proposal, msg, ibc}; authorised/base ∈ {0,1}; expect ∈ {"", submit, reject, accept}; changed = stores that differ
+  grd.end   C12|C14                                                         end of the run: every privileged entry point of the regenerated
+            inventory must have been driven by an unauthorised caller and (successfully) by the authorised one (C12); every
+            handler the table shows breaker- / ESM-guarded must have been driven with the control set (C14)
 
 DIFF = the decision computed from the regenerated table (`mustReject`, `cleanReject`, `wasmAuthorized`, `skipsControlled`)
 disagrees with the real code; MON = what the property text demands (`Spec.*`) is false on the real behaviour. -/
@@ -23,6 +28,9 @@ open Comdex.Guards Comdex.Gen.Guards Comdex.Line
 
 structure St where
   n : Nat := 0
+  driven : List String := []   -- coverage keys: "unauth:<kind>:<name>", "auth:<kind>:<name>", "brk:<handler>", "esm:<handler>"
+
+def St.mark (st : St) (k : String) : St := if st.driven.contains k then st else { st with driven := k :: st.driven }
 
 def init : St := {}
 
@@ -129,18 +137,68 @@ def handleTime (seq handler kind : String) (delta : Int) (outcome : String) (par
   let m2 := if outcome != "ok" && !parentEmpty then ["rejected_no_change"] else []
   d1 ++ d2 ++ d3 ++ ((m1 ++ m2).map fun m => s!"MON\t{seq}\t{m}")
 
+/-- an entry point of the inventory driven by some caller -/
+def handleEntry (seq kind name scn caller : String) (authorised base : Bool) (expect outcome : String) (diffEmpty : Bool)
+    (changed : String) : List String :=
+  match entryPoints.find? (fun e => e.kind == kind && epName e == name) with
+  | none => [s!"BAD\t{seq}\tentry point {kind} {name} is not in the regenerated inventory"]
+  | some e =>
+    let rejected := outcome != "ok"
+    let d1 := if base && rejected then [s!"DIFF\t{seq}\t{kind} {name} {scn}: the authorised caller's call must succeed, impl={outcome}"] else []
+    let d2 := if expect == "accept" && rejected then [s!"DIFF\t{seq}\t{kind} {name} {scn}: the good case must succeed, impl={outcome}"] else []
+    -- the table says the entry is privileged and guarded: an unauthorised caller must be refused
+    let d3 := if epPrivileged e && entryGuarded e && !authorised && expect != "submit" && !rejected then
+        [s!"DIFF\t{seq}\t{kind} {name} {scn}: table says the authority guard dominates, impl accepted caller {caller}"] else []
+    let m1 := if epPrivileged e && !authorised && expect != "submit" && (!rejected || !diffEmpty) then ["privileged_only"] else []
+    -- a submitted (not voted) proposal may only touch the gov / bank / auth stores (diffEmpty is computed without them)
+    let m2 := if expect == "submit" && !diffEmpty then ["privileged_only"] else []
+    let m3 := if rejected && !diffEmpty then ["rejected_no_change"] else []
+    let m4 := if expect == "reject" && (!rejected || !diffEmpty) then ["precondition_enforced"] else []
+    d1 ++ d2 ++ d3 ++ ((m1 ++ m2 ++ m3 ++ m4).eraseDups.map fun m => s!"MON\t{seq}\t{m}\t{kind} {name} {scn} caller={caller} outcome={outcome} changed=[{changed}]")
+
+/-- end of a run: what the regenerated tables list must have been driven -/
+def handleEnd (seq which : String) (driven : List String) : List String :=
+  if which == "C12" then
+    (entryPoints.filter epPrivileged).foldr (fun e acc =>
+      let k := e.kind ++ ":" ++ epName e
+      (if driven.contains ("unauth:" ++ k) then [] else [s!"DIFF\t{seq}\tprivileged entry point {k} was never driven by an unauthorised caller"]) ++
+      (if driven.contains ("auth:" ++ k) then [] else [s!"DIFF\t{seq}\tprivileged entry point {k} was never driven successfully by its authority"]) ++ acc) []
+  else if which == "C14" then
+    handlers.foldr (fun h acc =>
+      (if guarded 3 true h && !driven.contains ("brk:" ++ qname h) then
+        [s!"DIFF\t{seq}\tbreaker-guarded handler {qname h} was never driven with the breaker on"] else []) ++
+      (if guarded 2 true h && !driven.contains ("esm:" ++ qname h) then
+        [s!"DIFF\t{seq}\tESM-guarded handler {qname h} was never driven after an emergency shutdown"] else []) ++ acc) []
+  else [s!"BAD\t{seq}\tgrd.end {which}"]
+
 def handle (st : St) (seq : String) (f : List String) : St × List String :=
   let st' := { st with n := st.n + 1 }
   match f with
   | "grd.begin" :: _ => (st', [])
+  | ["grd.entry", kind, name, scn, caller, auth, base, expect, outcome, de, changed] =>
+    match b? auth, b? base, b? de with
+    | some auth, some base, some de =>
+      let k := kind ++ ":" ++ name
+      let st2 := if expect == "submit" then st' else if auth then (if outcome == "ok" then st'.mark ("auth:" ++ k) else st') else st'.mark ("unauth:" ++ k)
+      (st2, handleEntry seq kind name scn caller auth base expect outcome de changed)
+    | _, _, _ => (st', [s!"BAD\t{seq}\tgrd.entry flags"])
+  | ["grd.end", which] => (st', handleEnd seq which st'.driven)
   | ["grd.msg", handler, scn, owner, names, admin, brk, esm, needs, off, mode, base, outcome, pe, bc, vs] =>
     match b? owner, b? names, b? admin, b? brk, b? base, b? pe, b? bc, b? vs with
     | some owner, some names, some admin, some brk, some base, some pe, some bc, some vs =>
-      (st', handleMsg seq handler scn owner names admin brk esm needs off mode base outcome pe bc vs)
+      let st1 := if brk then st'.mark ("brk:" ++ handler) else st'
+      let st2 := if esm != "none" then st1.mark ("esm:" ++ handler) else st1
+      let st3 := if Spec.adminOnly.contains handler then
+          (if admin then (if outcome == "ok" then st2.mark ("auth:msg:" ++ handler) else st2) else st2.mark ("unauth:msg:" ++ handler)) else st2
+      (st3, handleMsg seq handler scn owner names admin brk esm needs off mode base outcome pe bc vs)
     | _, _, _, _, _, _, _, _ => (st', [s!"BAD\t{seq}\tgrd.msg flags"])
   | ["grd.wasm", variant, chain, kind, sender, base, outcome, de] =>
     match b? base, b? de with
-    | some base, some de => (st', handleWasm seq variant chain kind sender base outcome de)
+    | some base, some de =>
+      let designated := Spec.wasmDesignated variant chain
+      let st1 := if base && outcome == "ok" then st'.mark ("auth:wasm:wasm." ++ variant) else st'
+      let st2 := if designated.isSome && designated != some sender then st1.mark ("unauth:wasm:wasm." ++ variant) else st1
+      (st2, handleWasm seq variant chain kind sender base outcome de)
     | _, _ => (st', [s!"BAD\t{seq}\tgrd.wasm flags"])
   | ["grd.time", handler, kind, _endNs, delta, outcome, pe] =>
     match parseInt? delta, b? pe with
